@@ -490,8 +490,8 @@ impl Check for C03 {
             real: &["h3::server::Connection/RequestResolver/RequestStream", "h3::client::Connection/SendRequest/RequestStream", "h3::connection::RequestStream", "h3::frame::FrameStream", "h3::qpack stateless codec", "h3 shared state / error propagation"],
             stub: &["QUIC transport (SimQuic)", "executor (simexec)", "peer (script of raw stream actions built with the reference codecs)", "application (follows the documented call pattern)"],
             assumptions: &["frame payloads in the sequences are well-formed, so exactly one RFC rule applies", "client receiving FIN or PUSH_PROMISE before/in a response is left unconstrained (the property speaks of servers)", "under RESET only prefix-consistency is demanded"],
-            quick_runs: 120_000,
-            thorough_runs: 6_000_000,
+            quick_runs: 1_000_000,
+            thorough_runs: 40_000_000,
         }
     }
     fn run(&self, ctx: &RunCtx) -> RunOut {
